@@ -8,6 +8,7 @@ from typing import Any, Dict, List, Optional, Set, Tuple
 from ..cfacts import CUnit
 from ..core import AnalysisError, Report
 from ..pyfacts import Repo, ancestors, clone, inline_pure_helpers, inline_module_constants, inlined_statements, calls, dotted, norm, raise_guards, raised_class, walk_no_nested
+from ..pyfacts import resolve_names as _rn
 
 DM = 'flipjump/interpreter/io_devices/device_memory.py'
 SC = 'flipjump/interpreter/io_devices/ScreenIO.py'
@@ -398,8 +399,13 @@ def rule_dbit(rep: Report, repo: Repo) -> None:
     m = re.search(r'^\s*dbit\s*=\s*(.+?)\s*(?://.*)?$', src, re.M)
     rep.check(bool(m) and m.group(1).replace(' ', '') in ('w+#w', '#w+w'), 'C19.DBIT', 'runlib.fj', m.group(0).strip() if m else 'dbit definition missing',
               RUNLIB, expected='dbit = w + #w')
+    from ..pyfacts import resolve_names as _rn
     cv = repo.func('flipjump/interpreter/debugging/breakpoints.py', 'calculate_variable_value')
-    rep.check('word >> w.bit_length()' in norm(cv) and 'first_address + w' in norm(cv), 'C19.DBIT', 'debugger', 'jump word (+w bits), data bits at #w',
+    # a named shift amount reads as #w
+    shifts = [x for x in ast.walk(cv) if isinstance(x, ast.BinOp) and isinstance(x.op, ast.RShift)
+              and norm(_rn(cv, x.right, allow_calls=True, keep=('w',))) == 'w.bit_length()']
+    starts = [x for x in ast.walk(cv) if isinstance(x, ast.BinOp) and isinstance(x.op, ast.Add) and {norm(x.left), norm(x.right)} == {'first_address', 'w'}]
+    rep.check(bool(shifts) and bool(starts), 'C19.DBIT', 'debugger', 'jump word (+w bits), data bits at #w',
               f'flipjump/interpreter/debugging/breakpoints.py:{cv.lineno}')
 
 
@@ -452,6 +458,7 @@ def rule_screen_init(rep: Report, repo: Repo) -> None:
             lst, cnt = (st.value.left, st.value.right) if isinstance(st.value.left, ast.List) else (st.value.right, st.value.left)
             if isinstance(lst, ast.List) and len(lst.elts) == 1:
                 try:
+                    cnt = _rn(ini, cnt, keep=('width', 'height', 'palette_size'))            # a named pixel count reads as the product
                     sizes[norm(st.targets[0])] = [eval_int_expr(cnt, {'width': 7, 'height': 5, 'palette_size': 11, 'self.width': 7, 'self.height': 5, 'self.palette_size': 11})]
                 except _AE:
                     sizes[norm(st.targets[0])] = ['?']
